@@ -1066,9 +1066,10 @@ def corr_head(ck: Ck) -> None:
                     except Exception:   # noqa: BLE001
                         hp[n, a] = None
     w_cases, r_cases = [], []
-    forms_checked, forms_bad = 0, []
+    forms_checked, forms_bad, sole_blank = 0, [], 0
     extras = [(T.STRING, 'halfgridsnap'), (T.STRING, 'size'), (T.STRING, 'zzz'), (T.STRING, 'aliasof'), (T.STRING, 'base'), (T.PAREN_ARGS, ''),
-              (T.PAREN_ARGS, 'a, b'), (T.PAREN_ARGS, ' x '), (T.NEWLINE, '\n'), (T.EQUALS, '='), (T.COLON, ':'), (T.PLUS, '+'), (T.BRACK_OPEN, '['),
+              (T.PAREN_ARGS, 'a, b'), (T.PAREN_ARGS, ' x '), (T.PAREN_ARGS, 'a, , b'), (T.PAREN_ARGS, ', x'), (T.PAREN_ARGS, 'x, '), (T.PAREN_ARGS, ' , '), (T.PAREN_ARGS, ','), (T.PAREN_ARGS, ' '),
+              (T.NEWLINE, '\n'), (T.EQUALS, '='), (T.COLON, ':'), (T.PLUS, '+'), (T.BRACK_OPEN, '['),
               (T.COMMA, ','), (T.STRING, 'text')]
     for i in range(ck.budget(40, 300)):
         plain = i % 3 == 2
@@ -1077,7 +1078,7 @@ def corr_head(ck: Ck) -> None:
         e.bases = rng.sample(HEAD_BASES, rng.choice([0, 0, 1, 2, 3]))
         e.is_alias = bool(e.bases) and rng.random() < 0.3
         for _ in range(rng.choice([0, 1, 2, 3, 5])):
-            hname, hargs = rng.choice(HELPER_POOL if rng.random() < 0.8 else EXT_HELPER_POOL + [('orderby', ['speed', 'Model'])])
+            hname, hargs = rng.choice(HELPER_POOL if rng.random() < 0.8 else EXT_HELPER_POOL + SOLE_BLANK_POOL + [('orderby', ['speed', 'Model']), ('appliesto', ['', 'P2'])])
             try:
                 e.helpers.append(UnknownHelper(hname[1:], list(hargs)) if hname.startswith('@') else HELPER_IMPL[HelperTypes(hname)].parse(list(hargs)))
             except (ValueError, TypeError, KeyError):
@@ -1096,7 +1097,13 @@ def corr_head(ck: Ck) -> None:
         # premises of c16_entity_header_roundtrip on this entity: [form_ok] for every helper, [bases_ok], a stripped class name
         for h in e.helpers:
             n, a = hkey(h)
-            ok_args = all(x and ',' not in x and x.strip() == x for x in a)
+            if a == ['']:
+                # the sole blank argument is outside [args_ok]: written `name()`, read as no argument (c16_helper_args_sole_blank);
+                # the correspondence below still compares writer and reader on it
+                sole_blank += 1
+                continue
+            ok_args = all(',' not in x and x.strip() == x for x in a)       # blank arguments allowed (round 5)
+            ck.hist('head_helper_blank_args', blank_positions(a))
             if isinstance(h, UnknownHelper):
                 ok_form = n not in known and n != 'aliasof'
             else:
@@ -1153,8 +1160,9 @@ def corr_head(ck: Ck) -> None:
         cl(known), coq_list('(%s, %s, %s)' % (cs(n), cl(a), 'None' if v is None else 'Some (%s, %s)' % (cs(v[0]), cl(v[1])))
                             for (n, a), v in sorted(hp.items(), key=lambda kv: (kv[0][0], kv[0][1])))), 1)
     ck.obligation('data:header_premises_hold_for_generated_entities', not forms_bad and 'base' in known and 'aliasof' not in known,
-                  f'{forms_checked} helpers of the generated entities: HELPER_IMPL[type].parse(export()) gives the same helper, arguments and '
-                  f'base names are non-empty, stripped and without commas, no helper is called base/aliasof/autovis; HelperTypes knows '
+                  f'{forms_checked} helpers of the generated entities: HELPER_IMPL[type].parse(export()) gives the same helper, arguments are '
+                  f'stripped and without commas (blank ones allowed; {sole_blank} helpers with the sole blank argument are outside the premise), '
+                  f'base names also non-empty, no helper is called base/aliasof/autovis; HelperTypes knows '
                   f'"base" and not "aliasof" (premises of c16_entity_header_roundtrip); failing: {forms_bad[:5]}')
     vals = ck.coq_eval(IMPORTS, ['map hw ' + coq_list(w_cases), 'map hr ' + coq_list(r_cases)], name='head', preamble=pre, timeout=900)
     if vals is None:
@@ -2412,7 +2420,14 @@ HELPER_POOL = [('halfgridsnap', []), ('size', ['-8 -8 -8', '8 8 8']), ('size', [
                ('sphere', ['radius']), ('sphere', ['radius', '255 0 0']), ('line', ['255 255 255', 'targetname', 'target']),
                ('origin', ['originkey']), ('iconsprite', ['editor/foo.vmt']), ('studio', ['models/editor/foo.mdl']), ('studio', []),
                ('studioprop', []), ('wirebox', ['mins', 'maxs']), ('sidelist', ['sides']), ('lightcone', []), ('decal', []),
-               ('@custom', ['a', 'b c']), ('@other', [])]
+               ('@custom', ['a', 'b c']), ('@other', []),
+               # round 5: BLANK arguments at every position (the writer leaves an empty slot, the reader must keep it)
+               ('frustum', ['lightfov', '', '', 'lightcolor', '-1']), ('@worldtext_ex', ['message', '', 'textsize']), ('@lead', ['', 'x']),
+               ('@trail', ['x', '']), ('@two', ['', '']), ('@many', ['', 'a', '', '', 'b', '']), ('line', ['255 255 255', '', 'target']),
+               ('wirebox', ['', 'maxs']), ('wirebox', ['mins', '']), ('sphere', ['', '255 0 0']), ('lightcone', ['', 'key']),
+               ('cylinder', ['255 255 255', 'a', '', 'b'])]
+# the one list the format does not carry: a sole blank argument is written `name()` and read as no argument (c16_helper_args_sole_blank)
+SOLE_BLANK_POOL = [('@sole', [''])]
 EXT_HELPER_POOL = [('appliesto', ['TF2', 'P2']), ('appliesto', ['!CSGO'])]
 KV_NAMES = ['targetname', 'speed', 'model', 'skin', 'StartDisabled', 'message', 'rendercolor', 'angles', 'spawnflags', 'origin',
             'health', 'damage_type', 'Filter01', 'soundscape', '_light', 'wait']
@@ -2549,6 +2564,8 @@ def fgd_cause(fgd: Any, opts: dict) -> str:
         return 'special-character-in-default-or-choice-value'
     if has_custom_types(fgd):
         return 'custom-value-type'
+    if any('' in h.export() for e in fgd.entities.values() for h in e.helpers):
+        return 'blank-helper-argument'
     if any(e.is_alias for e in fgd.entities.values()) and custom:
         return 'alias-entity'
     return 'other'
@@ -3190,6 +3207,12 @@ INSTANCE_OBLIGATIONS = {
     'property_hypotheses_hold_for_todays_source': 'c16_property_hypotheses',
     'text_kind_keywords_read_back_as_their_kind': 'kind_keywords_read_back',
     'text_kind_dispatch_without_casefold_is_refuted': 'unfolded_dispatch_breaks',
+    # round 5: the PAREN_ARGS branch of EntityDef.parse as a generated object (separator, strip, filter, [''] special case)
+    'text_helper_args_program_is_the_model': 'helper_args_program_ok',
+    'text_helper_args_blank_arguments_keep_their_position': 'helper_args_blank_kept',
+    'text_helper_args_empty_parentheses_are_no_argument': 'helper_args_empty_parens_no_argument',
+    'text_helper_args_joined_by_comma_blank': 'helper_args_joined_by_comma_blank',
+    'text_helper_args_filter_is_refuted': 'filter_blank_breaks',
     'text_kv_type_program_is_the_model': 'kv_type_prog_ok',
     'text_io_type_program_is_the_model': 'io_type_prog_ok',
     'text_kv_unknown_type_kept_verbatim': 'kv_unknown_type_kept_verbatim',
@@ -3311,12 +3334,157 @@ def theorems_all(c: Any) -> None:
         c.obligation(f'theorem:{n}', True, 'Qed; axioms: ' + ('none (closed under the global context)' if not b else ', '.join(b)))
 
 
+# =============================================================================================== search: helper argument lists (round 5)
+HELPER_ARG_ATOMS = ['', 'x', 'b c']
+KNOWN_BLANK_NAMES = ['frustum', 'line', 'cylinder', 'wirebox', 'obb', 'sphere', 'lightcone', 'lightconenew', 'appliesto', 'orderby']
+KNOWN_BLANK_ATOMS = ['', 'key', '255 0 0', '-1']
+
+
+def blank_positions(args: list[str]) -> str:
+    """Where the blank arguments of a list are: none / sole / first / middle / last / several."""
+    blanks = [i for i, a in enumerate(args) if a == '']
+    if not blanks:
+        return 'none'
+    if len(args) == 1:
+        return 'sole'
+    if len(blanks) > 1:
+        return 'several'
+    return 'first' if blanks[0] == 0 else 'last' if blanks[0] == len(args) - 1 else 'middle'
+
+
+_KNOWN_BLANK_CACHE: list[tuple[str, tuple[str, ...]]] = []
+
+
+def known_blank_lists() -> list[tuple[str, tuple[str, ...]]]:
+    """Every (known helper, argument list over KNOWN_BLANK_ATOMS with 1-5 entries and at least one blank) that the helper's own
+    parse() accepts and whose export() keeps a blank, the sole blank `['']` excluded (the format reads `helper()` as no argument)."""
+    import itertools
+    import warnings
+    from srctools.fgd import HELPER_IMPL, HelperTypes
+    if not _KNOWN_BLANK_CACHE:
+        for name in KNOWN_BLANK_NAMES:
+            impl = HELPER_IMPL[HelperTypes(name)]
+            for n in range(1, 6):
+                for args in itertools.product(KNOWN_BLANK_ATOMS, repeat=n):
+                    if '' not in args:
+                        continue
+                    try:
+                        with warnings.catch_warnings():
+                            warnings.simplefilter('ignore')
+                            ex = impl.parse(list(args)).export()
+                    except Exception:   # noqa: BLE001
+                        continue
+                    if '' in ex and ex != ['']:
+                        _KNOWN_BLANK_CACHE.append((name, args))
+    return _KNOWN_BLANK_CACHE
+
+
+def helper_args_fgd(items: list[tuple[str, list[str]]]) -> str:
+    """A hand-written FGD: one entity whose header carries the helpers `name(arg, arg, ...)` exactly as EntityDef.export joins them."""
+    out = ['@PointClass']
+    out += [f'\t{name}({", ".join(args)})' for name, args in items]
+    out += ['= c16_helpers : "helpers"', '\t[', '\t]', '']
+    return '\n'.join(out)
+
+
+def helper_obs(h: Any) -> tuple[str, tuple[str, ...]]:
+    from srctools.fgd import UnknownHelper
+    return (h.name if isinstance(h, UnknownHelper) else h.TYPE.value, tuple(h.export()))
+
+
+def check_helper_args(items: list[tuple[str, list[str]]]) -> list[tuple[str, str]]:
+    """[(key, what)]: the helpers of the hand-written entity must be read with their arguments at the positions written (a blank
+    argument stays an argument; only `name()` is no argument), and export -> parse -> export must reproduce helpers and text."""
+    import warnings
+    from srctools.fgd import HELPER_IMPL, HelperTypes
+    known = {h.value for h in HelperTypes}
+    text = helper_args_fgd(items)
+    want: list[tuple[str, tuple[str, ...]]] = []
+    for name, args in items:
+        a = [] if list(args) in ([], ['']) else list(args)
+        if name in known:
+            with warnings.catch_warnings():
+                warnings.simplefilter('ignore')
+                want.append(helper_obs(HELPER_IMPL[HelperTypes(name)].parse(a)))
+        else:
+            want.append((name, tuple(a)))
+    try:
+        with warnings.catch_warnings():
+            warnings.simplefilter('ignore')
+            f1 = parse_text(text)
+    except Exception as e:   # noqa: BLE001
+        return [('helper-args-parse-error', f'hand-written entity header does not parse: {type(e).__name__}: {str(e)[:200]}')]
+    ent = f1.entities['c16_helpers']
+    got = [helper_obs(h) for h in ent.helpers]
+    if got != want:
+        k = next((i for i, (x, y) in enumerate(zip(got, want)) if x != y), min(len(got), len(want)))
+        cls = 'known' if k < len(items) and items[k][0] in known else 'unknown'
+        dropped = k < len(got) and k < len(want) and len(got[k][1]) < len(want[k][1]) and cls == 'unknown'
+        kind = 'blank-argument-dropped' if dropped or (k < len(items) and '' in items[k][1]) else 'arguments-changed'
+        return [(f'helper-args-{kind}:{cls}', f'`{helper_args_fgd(items[k:k + 1]).splitlines()[1].strip()}` is read as {got[k] if k < len(got) else None}, '
+                 f'expected {want[k] if k < len(want) else None} (helper arguments are positional)')]
+    t1 = f1.export()
+    try:
+        with warnings.catch_warnings():
+            warnings.simplefilter('ignore')
+            f2 = parse_text(t1)
+    except Exception as e:   # noqa: BLE001
+        return [('helper-args-export-unparseable', f'export of the parsed entity does not parse: {type(e).__name__}: {str(e)[:200]}')]
+    got2 = [helper_obs(h) for h in f2.entities['c16_helpers'].helpers]
+    if got2 != got or f2.entities['c16_helpers'].helpers != ent.helpers:
+        return [('helper-args-definition-changed', f'export -> parse changed the helpers: {got} -> {got2}')]
+    t2 = f2.export()
+    if t1 != t2:
+        l1, l2 = t1.splitlines(), t2.splitlines()
+        j = next((j for j, (x, y) in enumerate(zip(l1, l2)) if x != y), min(len(l1), len(l2)))
+        return [('helper-args-text-not-fixed-point', f'second export differs: {l1[j:j + 1]} vs {l2[j:j + 1]}')]
+    return []
+
+
+def search_helper_args(ck: Ck) -> None:
+    """Helper argument lists with blank arguments at every position.  Unknown helpers: EVERY list of 0-4 arguments over
+    HELPER_ARG_ATOMS (121 lists, exhaustive in both tiers); known helpers: lists their own parse() accepts and whose export() keeps a
+    blank (frustum, line, cylinder, wirebox, obb, sphere, lightcone, lightconenew, appliesto, orderby; a sample, all when thorough).
+    Text -> parse (arguments at the positions written) -> export -> parse -> export."""
+    import itertools
+    rng = ck.rng
+    cases: list[tuple[str, list[str]]] = []
+    for n in range(0, 5):
+        for args in itertools.product(HELPER_ARG_ATOMS, repeat=n):
+            cases.append((rng.choice(['worldtext_ex', 'custom', 'zz_top']), list(args)))
+    kb = known_blank_lists()
+    ck.extra['known_helpers_with_blank_arguments'] = sorted({n for n, _ in kb})
+    pick = kb if ck.thorough or len(kb) <= 150 else rng.sample(kb, ck.budget(150, len(kb)))
+    cases += [(n, list(a)) for n, a in pick]
+    rng.shuffle(cases)
+    i = 0
+    while i < len(cases):
+        k = rng.choice([1, 2, 3, 5])
+        items = cases[i:i + k]
+        i += k
+        ck.count('search_helper_args')
+        for name, args in items:
+            ck.hist('helper_args_blank', ('known:' if name in KNOWN_BLANK_NAMES else 'unknown:') + blank_positions(args))
+        if any('' in a for _, a in items):
+            ck.seen(('helperargs', tuple((n, tuple(a)) for n, a in items)))
+        for key, what in check_helper_args(items):
+            small = list(items)
+            for it in list(small):
+                cand = [x for x in small if x is not it]
+                if cand and any(k2 == key for k2, _ in check_helper_args(cand)):
+                    small = cand
+            if not any(k2 == key for k2, _ in check_helper_args(small)):
+                small = list(items)
+            ck.violation(key, what, {'kind': 'helper_args', 'items': [[n, a] for n, a in small], 'text': helper_args_fgd(small)})
+
+
 def search_groups(data: bytes, tb: dict) -> list[list[tuple[str, Callable[..., Any], tuple]]]:
     """The search stages, in two groups of about the same cost (one worker process each)."""
     return [
         [('search_longstring', search_longstring, ()),
          ('search_bundled', search_bundled, ()),
          ('search_type_text', search_type_text, ()),
+         ('search_helper_args', search_helper_args, ()),
          ('search_multi_db', search_multi_db, (data, tb)),
          ('search_isolation', search_isolation, (tb['names'],)),
          ('search_lazy_synthetic', search_lazy_synthetic, ())],
@@ -3656,6 +3824,9 @@ def run(ck: Ck) -> None:
         ck.explain('instance:text_type_table')
         ck.explain('data:io_type_names')
         ck.explain('data:value_type_names')
+    if any(k.startswith('helper-args-') or 'helpers' in k or 'blank-helper-argument' in k for k in keys):
+        ck.explain('instance:text_helper_args_')
+        ck.explain('correspondence:text_header_')
     if any(k.startswith('generated-fgd') or k.startswith('bundled-db') for k in keys):
         ck.explain('instance:text_kv_')
         ck.explain('instance:text_bool_')
@@ -3669,7 +3840,7 @@ def run(ck: Ck) -> None:
                ('_write_longstring', 'longstring:'), ('_fgd_escape', 'longstring:'), ('ESCAPE', 'longstring:'),
                ('KVDef.export', 'generated-fgd'), ('IODef.export', 'generated-fgd'), ('EntityDef.export', 'generated-fgd'),
                ('KVDef._parse', 'type-text-'), ('IODef._parse', 'type-text-'), ('VALUE_TYPE_LOOKUP', 'type-text-'), ('ValueTypes', 'type-text-'), ('VALUE_TO_IO_DECAY', 'generated-fgd'), ('VALUE_TO_IO_DECAY', 'type-text-'),
-               ('KVDef._parse', 'generated-fgd'), ('IODef._parse', 'generated-fgd'), ('FGD.parse_file', 'generated-fgd'),
+               ('KVDef._parse', 'generated-fgd'), ('IODef._parse', 'generated-fgd'), ('FGD.parse_file', 'generated-fgd'), ('EntityDef.parse', 'helper-args-'), ('EntityDef.parse', 'generated-fgd'), ('EntityDef.export', 'helper-args-'),
                ('FGD.parse_file', 'bundled-db'), ('EntityTypes', 'generated-fgd'))
     for tie in ck.tie_broken:
         if tie.startswith('translator '):
@@ -3754,6 +3925,12 @@ def replay(data: dict) -> int:
         if not w2:
             print('every later answer and the whole database equal the first answers')
         return 1 if w2 else 0
+    if kind == 'helper_args':
+        print(r['text'])
+        found_h = check_helper_args([(n, list(a)) for n, a in r['items']])
+        for k, t in found_h:
+            print('VIOLATION', k, ':', t)
+        return 1 if found_h else 0
     if kind == 'type_text':
         print(r['text'])
         found_t = check_type_text([tuple(x) for x in r['lines']])
